@@ -113,6 +113,15 @@ def compare_stage(ctx, stage, reqs, canon_impl, canon_model=None, describe=None,
             continue
         if y is None:
             continue
+        if y == 'TIMEOUT':
+            # the executable model is slower than the C++ on a few pathological inputs (quadratic list operations under
+            # the full pass budget): no answer is not a disagreement.  Counted; only a driver that times out on a
+            # noticeable share of a stage's requests is reported.
+            ntimeout = ctx.cov.setdefault('model_timeouts', {})
+            ntimeout[stage] = ntimeout.get(stage, 0) + 1
+            if ntimeout[stage] > max(3, len(reqs) // 100):
+                ctx.stage_broken('%s stage: the model driver timed out on %d of %d requests' % (stage, ntimeout[stage], len(reqs)), str(y)[:300], describe(i) if describe else r[:300])
+            continue
         if is_crash(y) or not y.startswith(stage.split('/')[0]):
             ctx.stage_broken('%s stage: the model driver failed' % stage, str(y)[:300], describe(i) if describe else r[:300])
             continue
